@@ -25,6 +25,9 @@ func execBound(cf *Config) float64 {
 		p += len(f.Procs)
 		cn += len(f.Req) + len(f.Res)
 	}
+	if len(cf.Flows) == 0 { // files given as text (quota / traffic streams): a flat cap
+		return 1e6
+	}
 	b := 2 * float64(len(cf.Flows)+1) * math.Pow(float64(1+cn), float64(p+1))
 	if b > 1e7 {
 		b = 1e7
